@@ -60,34 +60,130 @@ Theorem write_other_array_frame h a p vs s : arr s <> a ->
 Proof. intros H. split; [apply read_ext | apply read_cap_ext]; apply heap_write_other; exact H. Qed.
 
 (* ---- slices.Concat ---- *)
-Theorem concat_frame h ss :
-  let '(h', r) := concat h ss in
+Theorem concat_frame h ss nc :
+  let '(h', r) := concat h ss nc in
   (forall a, a < length h -> array h' a = array h a) /\
   arr r = length h /\ (forall s, wf_slice h s -> arr s <> arr r) /\
-  read h' r = flat_map (read h) ss /\ cap r = len r.
+  read h' r = flat_map (read h) ss.
 Proof.
   unfold concat. cbn zeta. repeat split.
   - intros a Ha. apply array_app_old. exact Ha.
   - intros s [Hs _]. simpl. lia.
-  - unfold read. cbn [arr off len]. rewrite array_app_new. simpl. apply firstn_all.
+  - unfold read. cbn [arr off len]. rewrite array_app_new. simpl.
+    rewrite firstn_app, firstn_all, Nat.sub_diag. simpl. apply app_nil_r.
+Qed.
+
+Lemma read_length h s : wf_slice h s -> length (read h s) = len s.
+Proof.
+  intros (Ha & Hl & Hc). unfold read. rewrite firstn_length, skipn_length. lia.
 Qed.
 
 (* ---- bytes.Clone ---- *)
-Theorem clone_frame h s nc :
+Theorem clone_frame h s nc : wf_slice h s ->
   let '(h', r) := clone h s nc in
   (forall a, a < length h -> array h' a = array h a) /\
   arr r = length h /\ (forall t, wf_slice h t -> arr t <> arr r) /\
   read h' r = read h s.
 Proof.
-  unfold clone. cbn zeta. repeat split.
+  intros W. unfold clone. cbn zeta. repeat split.
   - intros a Ha. apply array_app_old. exact Ha.
   - intros t [Ht _]. simpl. lia.
   - unfold read at 1. cbn [arr off len]. rewrite array_app_new. simpl.
-    rewrite firstn_app.
-    assert (Hl : length (read h s) <= len s) by (unfold read; rewrite firstn_length; lia).
-    destruct (Nat.eq_dec (length (read h s)) (len s)) as [E|E].
-    + rewrite <- E at 1. rewrite firstn_all. rewrite E, Nat.sub_diag. simpl. apply app_nil_r.
-    + (* the source slice reaches beyond its array: only for ill-formed slices *)
-      rewrite firstn_all2 by lia.
-      admit_placeholder.
-Abort.
+    rewrite <- (read_length h s W) at 1. rewrite firstn_app, firstn_all, Nat.sub_diag. simpl.
+    apply app_nil_r.
+Qed.
+
+(* ---- append ---- *)
+(* With spare capacity, append writes INTO the caller's array just beyond the
+   slice's length: whoever holds a longer view of that array sees the change. *)
+Theorem append_in_place_clobbers h s x nc : wf_slice h s -> len s < cap s ->
+  let '(h', r) := append h s [x] nc in
+  arr r = arr s /\ nth (off s + len s) (array h' (arr s)) 0%N = x.
+Proof.
+  intros (Ha & Hl & Hc) Hsp. unfold append. simpl length.
+  replace (len s + 1 <=? cap s) with true by (symmetry; apply Nat.leb_le; lia).
+  split; [reflexivity|]. rewrite heap_write_same by exact Ha.
+  rewrite write_at_inside; [|simpl; lia|simpl; lia].
+  rewrite Nat.sub_diag. reflexivity.
+Qed.
+
+(* Without spare capacity append allocates: every existing array is unchanged. *)
+Theorem append_full_frame h s vs nc : cap s < len s + length vs ->
+  let '(h', r) := append h s vs nc in
+  (forall a, a < length h -> array h' a = array h a) /\ arr r = length h.
+Proof.
+  intros Hf. unfold append.
+  replace (len s + length vs <=? cap s) with false by (symmetry; apply Nat.leb_gt; lia).
+  split; [|reflexivity]. intros a Ha. apply array_app_old. exact Ha.
+Qed.
+
+(* The idiom `append(param, 0)` is NOT framed: a caller buffer with spare
+   capacity is modified (concrete witness). *)
+Theorem append_on_parameter_refuted :
+  exists (h : heap) (caller_buf data : slice) (x : N),
+    wf_slice h caller_buf /\ wf_slice h data /\
+    read (fst (append h data [x] 0)) caller_buf <> read h caller_buf.
+Proof.
+  exists [[1; 2; 3; 170]%N], (mkSlice 0 0 4 4), (mkSlice 0 0 3 4), 0%N.
+  repeat split; simpl; try lia. vm_compute. discriminate.
+Qed.
+
+(* ---- the three idioms of C19, framed versions ---- *)
+
+(* (1) message suffixing through slices.Concat(data, suffix): no existing array
+   changes, the result lives in a fresh array. *)
+Theorem suffix_by_concat_framed h data suffix nc :
+  let '(h', r) := concat h [data; suffix] nc in
+  (forall s, wf_slice h s -> read h' s = read h s /\ read_cap h' s = read_cap h s) /\
+  (forall s, wf_slice h s -> arr r <> arr s) /\
+  read h' r = read h data ++ read h suffix.
+Proof.
+  pose proof (concat_frame h [data; suffix] nc) as H. unfold concat in *. cbn zeta in *.
+  destruct H as (Hold & Hr & Hfresh & Hread). repeat split.
+  - apply read_ext. apply Hold. apply H.
+  - apply read_cap_ext. apply Hold. apply H.
+  - intros s W E. apply (Hfresh s W). symmetry. exact E.
+  - rewrite Hread. simpl. rewrite app_nil_r. reflexivity.
+Qed.
+
+(* (2) a constructor that stores bytes.Clone(param): later writes through ANY
+   slice the caller can hold (any slice well-formed before the call) do not
+   change what the object sees. *)
+Theorem store_clone_framed h param nc caller p vs : wf_slice h param -> wf_slice h caller ->
+  let '(h1, stored) := clone h param nc in
+  read (heap_write h1 (arr caller) p vs) stored = read h1 stored /\ read h1 stored = read h param.
+Proof.
+  intros Wp Wc. pose proof (clone_frame h param nc Wp) as H. unfold clone in *. cbn zeta in *.
+  destruct H as (_ & Hr & Hfresh & Hread). split; [|exact Hread].
+  apply write_other_array_frame. intros E. apply (Hfresh caller Wc). symmetry. exact E.
+Qed.
+
+(* storing the parameter itself is NOT framed (concrete witness) *)
+Theorem store_parameter_refuted :
+  exists (h : heap) (param : slice) (i : nat) (v : N),
+    wf_slice h param /\
+    match set h param i v with Some h' => read h' param <> read h param | None => False end.
+Proof.
+  exists [[7; 7]%N], (mkSlice 0 0 2 2), 0, 9%N. split; [unfold wf_slice, array; simpl; lia|]. vm_compute. discriminate.
+Qed.
+
+(* (3) an accessor that returns bytes.Clone(field): writes through the returned
+   slice do not change the field. *)
+Theorem return_clone_framed h field nc p vs : wf_slice h field ->
+  let '(h1, ret) := clone h field nc in
+  read (heap_write h1 (arr ret) p vs) field = read h field.
+Proof.
+  intros W. pose proof (clone_frame h field nc W) as H. unfold clone in *. cbn zeta in *.
+  destruct H as (Hold & Hr & Hfresh & _).
+  cbn [arr]. destruct W as (Ha & W2).
+  transitivity (read (h ++ [read h field ++ repeat 0%N (Nat.max nc (len field) - len field)]) field).
+  - apply write_other_array_frame. simpl. lia.
+  - apply read_ext. apply Hold. exact Ha.
+Qed.
+
+Theorem return_field_refuted :
+  exists (h : heap) (field : slice) (i : nat) (v : N),
+    wf_slice h field /\
+    (* the accessor returned the field itself; the caller writes through it *)
+    match set h field i v with Some h' => read h' field <> read h field | None => False end.
+Proof. exact store_parameter_refuted. Qed.
